@@ -90,5 +90,7 @@ pub fn take_last_panic() -> Option<String> {
     LAST_PANIC.lock().ok().and_then(|mut g| g.take())
 }
 
+pub mod broker;
 pub mod canon;
+pub mod mock;
 pub mod engines;
